@@ -110,6 +110,7 @@ static std::vector<char> apply(const std::vector<char> &b, const Fault &f, const
     case 4: if (c.size() > 6) { c[5] = (char)f.a; c[6] = (char)f.b; } break;
     case 5: if (f.off < (long)c.size()) c[f.off] = (char)f.a; break;
     case 6: { vrt::Rng r((uint64_t)f.a); for (int k = 0; k < f.b && !c.empty(); ++k) { const size_t o = r.below(c.size()); c[o] = (char)(r.coin(1, 3) ? r.range(0, 255) : (c[o] ^ (1 << r.range(0, 7)))); } break; }
+    case 9: c.resize(std::min<size_t>(c.size(), (size_t)f.off)); c.insert(c.end(), (size_t)f.a, (char)0x80); break;   // everything from off on replaced by a long run of continuation bytes
     case 7: if (all && !all->empty()) { const std::vector<char> &o = (*all)[(size_t)f.b % all->size()]; c.resize(std::min<size_t>(c.size(), (size_t)f.off)); if ((size_t)f.off < o.size()) c.insert(c.end(), o.begin() + f.off, o.end()); } break;
     default: break;
   }
@@ -118,7 +119,7 @@ static std::vector<char> apply(const std::vector<char> &b, const Fault &f, const
 static std::string fdesc(const Fault &f) { return std::to_string(f.kind) + ":" + std::to_string(f.off) + ":" + std::to_string(f.a) + ":" + std::to_string(f.b); }
 
 static bool g_identity_only = false;   // model rows: probe every stream as it is
-static std::vector<Fault> enumerate(const std::vector<char> &b, int level, uint64_t seed, size_t index, size_t ncorpus) {
+static std::vector<Fault> enumerate(const std::vector<char> &b, int level, uint64_t seed, size_t index, size_t ncorpus, const std::string &name = "") {
   std::vector<Fault> fs;
   if (g_identity_only) { fs.push_back({8, 0, 0, 0}); return fs; }
   const long L = (long)b.size();
@@ -127,6 +128,8 @@ static std::vector<Fault> enumerate(const std::vector<char> &b, int level, uint6
   const long step = level >= 2 ? (L <= 6000 ? 1 : (L + 3999) / 4000) : (L <= 400 ? 1 : (L <= 1500 ? 5 : 23));
   const long phase = (long)(r.below((uint64_t)step));
   fs.push_back({8, 0, 0, 0});
+  // streams named c* (constrained multi-parallelogram grids): counts that end on a word boundary of the crease-flag vectors, at every offset
+  if (!name.empty() && name[0] == 'c') for (long o = 0; o < L; ++o) for (int val : {64, 128, 192}) if (val != (unsigned char)b[o]) fs.push_back({1, o, val, 0});
   for (long t = 0; t < L; t += (level >= 2 ? step : (L <= 600 ? 1 : 3))) fs.push_back({0, t, 0, 0});
   for (long o = phase; o < L; o += step) {
     const unsigned char v = (unsigned char)b[o];
@@ -141,6 +144,8 @@ static std::vector<Fault> enumerate(const std::vector<char> &b, int level, uint6
   }
   // the first 40 bytes hold the header, the counts and the first tables: always at step 1
   if (step > 1) for (long o = 0; o < std::min<long>(L, 40); ++o) { for (int val : {0x00, 0xFF, 0x7F, 0x80}) fs.push_back({1, o, val, 0}); for (int p : {0, 5, 6, 7, 8, 9}) fs.push_back({3, o, p, 0}); fs.push_back({2, o, 0xFFFFFFFFll, 0}); }
+  // a varint that never ends: 400 000 continuation bytes from the offset on (whatever reads a varint there has to give up after the width of its type)
+  for (long o = 8; o < L; o += (o < 64 ? 1 : (level >= 1 ? 5 : 17))) fs.push_back({9, o, 400000, 0});
   for (int maj = 0; maj <= 3; ++maj) for (int mn = 0; mn <= 5; ++mn) fs.push_back({4, 0, maj, mn});
   for (long o = 7; o <= 10 && o < L; ++o) for (int val = 0; val < 6; ++val) fs.push_back({5, o, val, 0});
   const int nmulti = level >= 2 ? 400 : (level == 1 ? 60 : 12);
@@ -268,7 +273,7 @@ static int run_sweep(const std::string &dir, int shard, int nshards, int level, 
     if (level == 0 && b.size() > 6000) continue;       // the big legacy files are swept in the thorough tier only
     long base_np = -1;
     { Decoded d0 = decode(b.data(), b.size()); if (d0.ok) base_np = d0.pc->num_points(); }
-    const std::vector<Fault> fs = enumerate(b, level, seed, si, names.size());
+    const std::vector<Fault> fs = enumerate(b, level, seed, si, names.size(), names[si]);
     long start = 0;
     g_sh->ok = g_sh->failed = g_sh->tolerated = 0;
     long s_crash = 0, s_timeout = 0;
